@@ -109,15 +109,25 @@ class _PlatypusJSONDecoder(json.JSONDecoder):
     def __init__(self, problem=None, *args, **kwargs):
         super().__init__(object_hook=self.object_hook, *args, **kwargs)
         self.problem = problem
+        self.inferred = False
 
     def object_hook(self, d):
         if "problem" in d and "result" in d:
-            if self.problem is None:
+            # The solutions inside "result" are decoded before this enclosing object, so when no problem was
+            # supplied they were bound to a placeholder inferred from their shape.  Replace it by the saved
+            # problem definition and recompute the derived fields.
+            if self.problem is None or self.inferred:
                 self.problem = Problem(int(d["problem"]["nvars"]),
                                        int(d["problem"]["nobjs"]),
                                        int(d["problem"]["nconstrs"]))
                 self.problem.directions[:] = d["problem"]["directions"]
                 self.problem.constraints[:] = d["problem"]["constraints"]
+                self.inferred = False
+
+                for solution in d["result"]:
+                    solution.problem = self.problem
+                    solution.constraint_violation = sum([abs(f(x)) for (f, x) in zip(self.problem.constraints, solution.constraints)])
+                    solution.feasible = solution.constraint_violation == 0.0
 
             return d["result"]
 
@@ -126,6 +136,7 @@ class _PlatypusJSONDecoder(json.JSONDecoder):
                 self.problem = Problem(len(d["variables"]),
                                        len(d["objectives"]),
                                        len(d["constraints"]))
+                self.inferred = True
 
             solution = Solution(self.problem)
             solution.variables[:] = d["variables"]
